@@ -281,6 +281,14 @@ func emitObjCalObjs(o *Out, r *RNG) {
 			}
 			return pr([]caldav.CalendarObject{*got}, nil)
 		}))
+		// the same object asked for by a name relative to the endpoint: what comes back is the resource's path
+		o.Emit("obj.calobjs", "get "+sxl(in[i:i+1]), guard(func() string {
+			got, err := c.GetCalendarObject(context.Background(), strings.TrimPrefix(co.Path, "/"))
+			if err != nil {
+				return errStr(err)
+			}
+			return pr([]caldav.CalendarObject{*got}, nil)
+		}))
 	}
 }
 
@@ -334,6 +342,13 @@ func emitObjCards(o *Out, r *RNG) {
 	for i, ao := range objs {
 		o.Emit("obj.cards", "get "+sxl(in[i:i+1]), guard(func() string {
 			got, err := c.GetAddressObject(context.Background(), ao.Path)
+			if err != nil {
+				return errStr(err)
+			}
+			return pr([]carddav.AddressObject{*got}, nil)
+		}))
+		o.Emit("obj.cards", "get "+sxl(in[i:i+1]), guard(func() string {
+			got, err := c.GetAddressObject(context.Background(), strings.TrimPrefix(ao.Path, "/"))
 			if err != nil {
 				return errStr(err)
 			}
